@@ -16,8 +16,9 @@ Gamma / Beta operators) are documented as *linear* interpolations of a table wit
 (for the inverse gamma in log space).  Their stated accuracy is therefore the error of a linear interpolation
 with that spacing:  rel. error <= step^2/8 * max |g''| on the surrounding interval, g = f or log f.  The
 oracle evaluates g'' by second differences of the exact SciPy quantile function at spacing `step` around the
-test point and grants SAFETY * step^2/8 * max(|f''/f|, |(log f)''|) + 1e-9 (for a = 2, step = 1e-2 this is
-1.2e-5, the repository's test asserts 1e-5 there; it shrinks quadratically with the step).
+test point and grants SAFETY * step^2/8 * max|g''| + 1e-9 with g = log f for the inverse-gamma family (table in
+log space; for a = 2, step = 1e-2 this is <= 1.25e-5, the repository's test asserts 1e-5 there) and g = f
+(relative: |f''/f|) for gamma and beta; the bound shrinks quadratically with the step.
 """
 import warnings
 
@@ -52,7 +53,9 @@ ASSUMPTIONS = [
     "a transform may evaluate Phi(xi) in float64: results between the quantiles of p -+ 4 ulp(p) are accepted "
     "(8 ulp for interpolated tables and round trips, which evaluate a cdf twice / at neighbouring nodes)",
     "interpolated transforms are held to the documented scheme: error of a linear interpolation with the given "
-    "step in the better of linear/log space, SAFETY=2, floor 1e-9 relative",
+    "step (inverse-gamma family: of log f, as the repository's own accuracy test implies; gamma/beta: of f), "
+    "SAFETY=2 on the second-difference estimate, floor 1e-9 relative; nifty.re invgamma with loc != 0 may "
+    "tabulate log(loc + scale f) instead of log f",
     "parameters: means/locations in [-4,4], scales/shapes dyadic in [1/8,16]; inverse-gamma/gamma/beta shapes >= 1/4",
     "inverse gamma by (mode, mean): mean > mode strictly (docstring); alpha=(mean+mode)/(mean-mode), "
     "q=2 mean mode/(mean-mode) follow from the documented mode=q/(alpha+1), mean=q/(alpha-1)",
@@ -214,16 +217,20 @@ def deriv(dist, xs, e=2.0 ** -10):
     return np.maximum(at_latent(dist, xs + e) - at_latent(dist, xs - e), 0.0) / (2 * e)
 
 
-def interp_tol(fstd, x, h):
-    """relative error bound of a linear interpolation with spacing h of the exact function fstd (or of its log)
-    around x: SAFETY * h^2/8 * max over [x-2h, x+2h] of max(|f''/f|, |(log f)''|), from second differences"""
+def interp_tol(fstd, x, h, space):
+    """relative error bound of a linear interpolation with spacing h of the exact function fstd around x,
+    tabulated in `space`: "log" (inverse gamma family: the table holds log f, documented accuracy 1e-5 for
+    a=2, step=1e-2) -> SAFETY*h^2/8*max|(log f)''|;  "lin" (gamma, beta: the table holds f) ->
+    SAFETY*h^2/8*max|f''/f|.  Maxima over [x-2h, x+2h] from second differences of the exact function."""
     x = np.asarray(x, dtype=np.float64)
     F = np.array([fstd(x + o * h) for o in (-2, -1, 0, 1, 2)])
     with np.errstate(divide="ignore", invalid="ignore"):
-        L = np.log(F)
-        d2F = np.abs(F[:-2] - 2 * F[1:-1] + F[2:]) / h ** 2 / np.min(F, axis=0)
-        d2L = np.abs(L[:-2] - 2 * L[1:-1] + L[2:]) / h ** 2
-    M = np.maximum(np.max(d2F, axis=0), np.max(d2L, axis=0))
+        if space == "log":
+            L = np.log(F)
+            d2 = np.abs(L[:-2] - 2 * L[1:-1] + L[2:]) / h ** 2
+        else:
+            d2 = np.abs(F[:-2] - 2 * F[1:-1] + F[2:]) / h ** 2 / np.min(F, axis=0)
+    M = np.max(d2, axis=0)
     if not np.all(np.isfinite(M)):
         raise Discard()      # reference underflows: outside the supported range
     return SAFETY * h * h / 8.0 * M
@@ -448,7 +455,7 @@ def check_cl_interp(rec):
     require(op.target == ift.DomainTuple.make(dom), "target", f"{op.target}")
     y = op(ift.makeField(dom, xi)).asnumpy()
     fstd = lambda z: at_latent(std, z)
-    rtol = interp_tol(fstd, xi, delta) + TOL
+    rtol = interp_tol(fstd, xi, delta, "log" if kind in ("invgamma", "loginvgamma") else "lin") + TOL
     lo, up = node_band(std, fstd, xi, delta)
     ref = quant(std, t, hi)
     mult_a = np.broadcast_to(np.asarray(mult, dtype=np.float64), ref.shape)
@@ -556,7 +563,7 @@ def check_re_closed(rec):
         if rec.get("jit"):
             classes.append("jit")
             yj = np.asarray(jax.jit(m)(inp))
-            in_band(yj, y, y, 1e-12 * scale, f"re_{kind}_jit_vs_eager")
+            in_band(yj, y, y, 1e-12 * (np.abs(y) + base), f"re_{kind}_jit_vs_eager")
     detail = f"api={api} params={pk} p1={p1} p2={p2}"
     forward_check(y, d, t, hi, scale, f"re_{kind}_quantile", detail=detail)
     if inv is not None:
@@ -621,14 +628,14 @@ def check_re_invgamma(rec):
     scal = np.asarray(scv, dtype=np.float64)
     ref_std = quant(std, t, hi)
     ref = loc + scal * ref_std
-    rt_std = interp_tol(fstd, xi, step) + TOL          # relative to scale*f
+    rt_std = interp_tol(fstd, xi, step, "log") + TOL   # relative to scale*f
     rt = rt_std
     if loc != 0.0:
         # the tabulated function may be loc + scale*f (or its log where that is positive) instead of f:
         # any of these ways to tabulate is accepted
         full = lambda z: loc + float(scv) * fstd(z)
         if full(np.array([-7.3]))[0] > 0:
-            rt_full = (interp_tol(full, xi, step) + TOL) * np.abs(ref) / (scal * ref_std)
+            rt_full = (interp_tol(full, xi, step, "log") + TOL) * np.abs(ref) / (scal * ref_std)
             rt = np.maximum(rt_std, rt_full)
     tol_abs = rt * scal * ref_std + TOL * abs(loc)
     lo, up = node_band(std, fstd, xi, step)
@@ -694,7 +701,7 @@ def check_pair(rec):
         std = stats.invgamma(p1)
         fstd = lambda z: at_latent(std, z)
         ref = p2 * quant(std, t, hi)
-        rtol = 2 * (interp_tol(fstd, xi, step) + TOL)
+        rtol = 2 * (interp_tol(fstd, xi, step, "log") + TOL)
         lo, up = node_band(std, fstd, xi, step)
         band = ref * (up - lo)
         require(np.all(np.isfinite(yj)), "pair_invgamma:nonfinite", detail)
